@@ -2,6 +2,7 @@ import Driver.Util
 import Model.RdataSchema
 import Model.RdataIrregular
 import Model.RdataTable
+import Model.RdataDispatch
 /-!
 driver ops of C02 (prefix `c02.`)
 
@@ -16,6 +17,9 @@ value trees on the line protocol, space separated tokens:
   `C02/fixpoint/EDE-text-ends-with-NUL`; this is the table's OPT entry); 0 = the code as shipped before (one NUL).
   The harness learns which one the working tree implements by replaying the witness.
   c02.dispatch <class> <type>                                             →  <directory class> <mnemonic>  (`dns.rdata.get_rdata_class`)
+  c02.dispatchseq <op>…   with <op> = g:<class>:<type>:<use_generic 0|1> | L:<disable 0|1>
+                          →  per `g` op: <dir>/<type> | g (GenericRdata) | - (None), after running the history on
+                             the model of `_rdata_classes` / `_dynamic_load_allowed` (`Model.RdataDispatch`)
   c02.wf                                                        →  per-type static status (for the evidence)
 -/
 namespace Driver
@@ -65,6 +69,23 @@ def lookupV (variant c t : Nat) : Entry :=
   let e := lookup c t
   if variant = 0 ∧ e.typ = 41 ∧ e.isCustom then { e with kind := .optShipped } else e
 
+def showImpl : Option Impl → String
+  | none => "-"
+  | some .generic => "g"
+  | some (.module d t) => s!"{d}/{t}"
+
+def runHistory : DState → List String → Option (List String)
+  | _, [] => some []
+  | s, op :: ops =>
+    match op.splitOn ":" with
+    | ["g", c, t, ug] => do
+      let c ← c.toNat?; let t ← t.toNat?
+      let r := getClass ConstsC02.moduleFiles s c t (ug == "1")
+      let tl ← runHistory r.2 ops
+      some (showImpl r.1 :: tl)
+    | ["L", d] => runHistory (loadAll ConstsC02.moduleFiles ConstsC02.enumTypes s (d == "1")) ops
+    | _ => none
+
 def handleC02 : List String → Option String
   | ["c02.dec", vr, c, t, o, p, r] => do
     let vr ← vr.toNat?
@@ -91,6 +112,9 @@ def handleC02 : List String → Option String
     let c ← c.toNat?; let t ← t.toNat?
     let e := lookup c t
     some (if e.mnemonic = "GENERIC" then "g GENERIC" else s!"{e.cls} {e.mnemonic}")
+  | "c02.dispatchseq" :: ops => do
+    let r ← runHistory DState.init ops
+    some (" ".intercalate r)
   | ["c02.wf"] => some (" ".intercalate (table.map statusLine))
   | ["c02.types"] => some (" ".intercalate (modelledTypes.map fun p => s!"{p.1}/{p.2}"))
   | _ => none
